@@ -627,6 +627,14 @@ class BuiltinMixin:
     def me_bytes_endswith(self, v, st, args, kwargs, fx):
         return [Ev(st, BoolV(z3.SuffixOf(args[0].t, v.t)))]
 
+    def me_str_isdigit(self, v, st, args, kwargs, fx):
+        """str.isdigit: for ASCII text exactly [0-9]+; text with other characters may consist of Unicode digits (uninterpreted)"""
+        if not isinstance(v, StrV):
+            raise OutOfReach("isdigit of %s" % v.kind)
+        ascii_re = z3.Star(z3.Range(chr(0), chr(127)))
+        uni = z3.Function("str_isdigit_unicode", z3.StringSort(), z3.BoolSort())(v.t)
+        return [Ev(st, BoolV(z3.If(z3.InRe(v.t, ascii_re), z3.InRe(v.t, z3.Plus(z3.Range("0", "9"))), z3.And(uni, z3.Length(v.t) > 0))))]
+
     def me_bytes_isdigit(self, v, st, args, kwargs, fx):
         return [Ev(st, BoolV(z3.InRe(v.t, z3.Plus(z3.Range("0", "9")))))]
 
@@ -736,12 +744,16 @@ class BuiltinMixin:
                 else:
                     for b2, t2 in self.branch(b, z3.Bool(fresh_name("encodable"))):
                         if t2:
-                            out.append(Ev(b2, BytesV(z3.Function("encode_any", z3.StringSort(), z3.StringSort())(v.t))))
+                            ea = z3.Function("encode_any", z3.StringSort(), z3.StringSort())(v.t)
+                            b2.assume(z3.Not(z3.InRe(ea, ascii_re)))      # A-enc: a non-ASCII character never encodes to ASCII bytes only
+                            out.append(Ev(b2, BytesV(ea)))
                         else:
                             out.append(self.raise_(b2, "UnicodeEncodeError", "codec"))
             return out
         if enc in ("utf8", "utf-8"):
-            t = z3.If(z3.InRe(v.t, ascii_re), v.t, z3.Function("utf8", z3.StringSort(), z3.StringSort())(v.t))
+            u8 = z3.Function("utf8", z3.StringSort(), z3.StringSort())(v.t)
+            st.assume(z3.Implies(z3.Not(z3.InRe(v.t, ascii_re)), z3.Not(z3.InRe(u8, ascii_re))))      # A-enc: UTF-8 of non-ASCII text has a byte >= 0x80
+            t = z3.If(z3.InRe(v.t, ascii_re), v.t, u8)
             return [Ev(st, BytesV(t))]
         raise OutOfReach("str.encode(%s)" % enc)
 
